@@ -1,7 +1,17 @@
-"""Per-property harness lists (bounds per tier). Each job is one gosmt harness run."""
+"""Per-property harness lists (bounds per tier). Each job is one gosmt harness run.
+
+SPEC[id] = {jobs(tier, seed) -> [job], level_text, level_note, assumptions, outside}
+"""
 
 PAR = 16
 DEFAULT_UNWIND = 12
+HOOKS_ENABLE = "harness files are injected with go/packages Overlay and `go test -overlay -tags verif`; nothing is written into /repo by a check"
+HOOK_COMMITS = []
+NOTES = "All claimed checks are bounded: evidence lists the bound vector of every harness run. Exit 3 = inconclusive (never reported as pass)."
+NOT_APPLICABLE = {}
+
+MEM = "pkg/storage/memory"
+TUP = "pkg/tuple"
 
 
 def J(pkg, harness, unwind=None, timeout_ms=None, max_paths=None, fork_all=False, **params):
@@ -18,32 +28,52 @@ def J(pkg, harness, unwind=None, timeout_ms=None, max_paths=None, fork_all=False
 
 
 def c29(tier, seed):
-    T = "pkg/tuple"
     q = tier == "quick"
     jobs = []
-    # grammar predicates vs. documented grammar: all byte strings (incl. invalid UTF-8) and longer ASCII
     for h in ["VerifK29cObject", "VerifK29cRelation", "VerifK29cUserID"]:
-        jobs.append(J(T, h, len=3 if q else 5, timeout_ms=60000 if q else 300000))
-        jobs.append(J(T, h, len=6 if q else 9, ascii=1, timeout_ms=60000 if q else 300000))
-    jobs.append(J(T, "VerifK29aRoundTrip", obj=3, rel=1, usr=3, timeout_ms=120000))
-    jobs.append(J(T, "VerifK29aRoundTrip", obj=4, rel=2, usr=4, ascii=1, timeout_ms=120000))
-    jobs.append(J(T, "VerifK29aParsePrint", len=8, timeout_ms=120000))
-    jobs.append(J(T, "VerifK29bSplitObjectRelation", o=4, r=3, timeout_ms=120000))
-    jobs.append(J(T, "VerifK29bUserParts", len=5 if q else 7, timeout_ms=120000))
+        jobs.append(J(TUP, h, len=3 if q else 5, timeout_ms=60000 if q else 300000))
+        jobs.append(J(TUP, h, len=6 if q else 9, ascii=1, timeout_ms=60000 if q else 300000))
+    jobs.append(J(TUP, "VerifK29aRoundTrip", obj=3, rel=1, usr=3, timeout_ms=120000))
+    jobs.append(J(TUP, "VerifK29aRoundTrip", obj=4, rel=2, usr=4, ascii=1, timeout_ms=120000))
+    jobs.append(J(TUP, "VerifK29aParsePrint", len=8, timeout_ms=120000))
+    jobs.append(J(TUP, "VerifK29bSplitObjectRelation", o=4, r=3, timeout_ms=120000))
+    jobs.append(J(TUP, "VerifK29bUserParts", len=5 if q else 7, timeout_ms=120000))
     if not q:
-        jobs.append(J(T, "VerifK29aRoundTrip", obj=5, rel=3, usr=6, ascii=1, timeout_ms=600000))
-        jobs.append(J(T, "VerifK29aParsePrint", len=12, ascii=1, timeout_ms=600000))
+        jobs.append(J(TUP, "VerifK29aRoundTrip", obj=5, rel=3, usr=6, ascii=1, timeout_ms=600000))
+        jobs.append(J(TUP, "VerifK29aParsePrint", len=12, ascii=1, timeout_ms=600000))
+    return jobs
+
+
+def c14(tier, seed):
+    q = tier == "quick"
+    n = 3 if q else 5
+    tok = 2 if q else 3
+    jobs = [
+        J(MEM, "VerifK14aReadPageAnyToken", n=n, tok=tok),
+        J(MEM, "VerifK14aReadPageFollow", n=n + 1),
+        J(MEM, "VerifK14aListStoresAnyToken", n=n, tok=tok),
+        J(MEM, "VerifK14aReadModelsAnyToken", n=n, tok=tok),
+    ]
     return jobs
 
 
 SPEC = {
+    "C14": {
+        "jobs": c14,
+        "level_text": "bounded symbolic execution of the memory backend's paginated reads (ReadPage, ListStores, ReadAuthorizationModels): for every item count <= N, every page size and EVERY continuation-token byte string up to the bound the solver shows the call either rejects the token or returns the contiguous page at the (clamped) position in the documented order with the exact follow-up token; following issued tokens visits every item once. A panic on any path is a violation.",
+        "level_note": "bounds: N<=3 (quick) / 5 items, tokens <= 2/3 arbitrary bytes, page size 1..N+1; memory backend only (SQL backends are query strings executed by an external engine: outside); strconv.Atoi/Itoa are the real code; trusted: engine semantics, z3",
+        "assumptions": ["forged tokens outside [0,n] may be clamped (what ListStores/ReadAuthorizationModels do) but never restart the listing", "tracing (otel) calls are no-ops"],
+        "outside": ["sqlite/postgres/mysql pagination", "ReadChanges token/type binding (commands layer) until K14b is registered", "data sets larger than the bound"],
+    },
     "C29": {
         "jobs": c29,
+        "level_text": "bounded symbolic execution of pkg/tuple's real SSA: for every byte string within the bound the solver shows the validity predicates equal an independent grammar and the print/parse/split/build functions are mutual inverses; unsat = holds for all inputs in the bound, sat = concrete string replayed natively",
+        "level_note": "bounds: strings <= 3..5 arbitrary bytes / <= 6..12 ASCII bytes per field (tier dependent, listed in evidence); trusted: go/ssa, the engine's instruction semantics and UTF-8 decoder, z3",
         "assumptions": [
-            "unicode.IsControl modelled as r<0x20 or 0x7f<=r<0xa0 (engine self-test compares with the table for all runes)",
-            "UTF-8 decoding of `range` and utf8.DecodeRuneInString is the engine's bit-vector decoder (self-tested against native)",
+            "unicode.IsControl modelled as r<0x20 or 0x7f<=r<0xa0",
+            "UTF-8 decoding of `range` and utf8.DecodeRuneInString is the engine's bit-vector decoder",
             "strings.Builder is modelled as an append-only byte slice",
         ],
-        "outside": ["strings longer than the stated bounds", "StringToUserProto/UserProtoToString (protobuf oneof construction) are covered by VerifK29bUserProto once registered"],
+        "outside": ["strings longer than the stated bounds"],
     },
 }
